@@ -91,12 +91,14 @@ def apply_ruler_op(ruler, op, k=0):
     if t == 3:
         ruler.push(op[1], op[2], {"alt": list(op[3])} if (op[3] or k % 2) else None)
         return [0]
+    # "not asked to ignore" is also spelled by leaving the argument out (the documented default)
+    ign = ((op[2],) if (op[2] or k % 2) else ()) if t in (4, 5, 6) else ()
     if t == 4:
-        return [1, [list(map(ord, s)) for s in ruler.enable(names_arg(k, op[1]), op[2])]]
+        return [1, [list(map(ord, s)) for s in ruler.enable(names_arg(k, op[1]), *ign)]]
     if t == 5:
-        return [1, [list(map(ord, s)) for s in ruler.enableOnly(names_arg(k, op[1]), op[2])]]
+        return [1, [list(map(ord, s)) for s in ruler.enableOnly(names_arg(k, op[1]), *ign)]]
     if t == 6:
-        return [1, [list(map(ord, s)) for s in ruler.disable(names_arg(k, op[1]), op[2])]]
+        return [1, [list(map(ord, s)) for s in ruler.disable(names_arg(k, op[1]), *ign)]]
     if t == 7:
         return [2, list(ruler.getRules(op[1]))]
     if t == 8:
@@ -346,7 +348,8 @@ def apply_facade_op(md, op, fnid):
 
     t = op[0]
     if t in (0, 1):
-        (md.enable if t == 0 else md.disable)(names_arg(len(op[1]) + t, op[1]), op[2])
+        ign = (op[2],) if (op[2] or len(op[1]) % 2) else ()     # the default spelled by omission, too
+        (md.enable if t == 0 else md.disable)(names_arg(len(op[1]) + t, op[1]), *ign)
         return [0]
     if t == 2:
         which, rop = op[1], op[2]
